@@ -81,6 +81,7 @@ enum SutActionKind {
 	A_NONE, A_CANCEL, A_CHANGE_TO, A_CHANGE_WITH,
 	A_SUCCEED_SELF, A_FAIL_SELF, A_SUCCEED, A_FAIL,
 	A_PLAN_APPEND, A_PLAN_APPEND_WITH, A_PLAN_REMOVE_NTH, A_PLAN_CLEAR, A_PLAN_WALK,
+	A_LOGGER_ATTACH, A_LOGGER_DETACH,   /* performed by the simulator on the instance itself, in the middle of a callback; a no-op for sut.cpp */
 	A_COUNT
 };
 
